@@ -30,8 +30,9 @@ def gen_plan(rng, tier, index):
     dim = rng.pick([nc - 1, nc - 1, nc, max(1, nc - 2), 1, 2]) if nc > 2 else 1
     dim = max(1, dim)
     pts = [[[rng.randint(-6, 6) / 2.0 for _ in range(dim)] for _ in range(nc)] for _ in range(2)]
-    kind = rng.pick(['fixed', 'weighted', 'fixed', 'weighted', 'fixed_multi'])
-    theta = [rng.pick([0.5, 1.0, 2.0, 3.0]), rng.pick([0.0, 0.5, 1.0])] if kind == 'weighted' else None
+    kind = rng.pick(['fixed', 'weighted', 'fixed', 'weighted', 'fixed_multi', 'interpolate', 'select'])
+    theta = [rng.pick([0.5, 1.0, 2.0, 3.0]), rng.pick([0.0, 0.5, 1.0])] if kind in ('weighted', 'interpolate') else \
+        rng.pick([0, 1]) if kind == 'select' else None
     n_part = rng.randint(1, 4)
     design = rng.pick(['make_design', 'shuffled', 'relabelled', 'matrix', 'shuffled_relabelled', 'matrix_mixed'])
     n_ch = nc + rng.pick([0, 0, 1, 3, 10]) if rng.chance(0.92) else max(1, nc - rng.randint(1, 2))
@@ -85,7 +86,7 @@ def shrink_candidates(plan):
         yield {**plan, 'noise_cov': False}
     if plan['design'] != 'make_design':
         yield {**plan, 'design': 'make_design'}
-    if plan['kind'] == 'weighted':
+    if plan['kind'] in ('weighted', 'interpolate', 'select'):
         yield {**plan, 'kind': 'fixed', 'theta': None}
     if plan['noise'] != 0:
         yield {**plan, 'noise': 0}
@@ -163,7 +164,7 @@ def _noise_candidates(e, L, Lt):
 
 
 def _model(plan):
-    from rsatoolbox.model import ModelFixed, ModelWeighted
+    from rsatoolbox.model import ModelFixed, ModelWeighted, ModelInterpolate, ModelSelect
     from rsatoolbox.rdm import RDMs
     nc = plan['n_cond']
     iu = np.triu_indices(nc, 1)
@@ -183,8 +184,14 @@ def _model(plan):
         m = ModelFixed('simfixedmulti', RDMs(np.array([D[0][iu], D[1][iu]])))
         pred = (D[0] + D[1]) / 2.0
         theta = None
+    elif plan['kind'] == 'select':
+        # one of several candidate RDMs, chosen by the (integer) parameter
+        m = ModelSelect('simselect', RDMs(np.array([D[0][iu], D[1][iu]])))
+        theta = int(plan['theta'])
+        pred = D[theta]
     else:
-        m = ModelWeighted('simweighted', RDMs(np.array([D[0][iu], D[1][iu]])))
+        cls = ModelInterpolate if plan['kind'] == 'interpolate' else ModelWeighted
+        m = cls('sim' + plan['kind'], RDMs(np.array([D[0][iu], D[1][iu]])))
         theta = np.array(plan['theta'], dtype=float)
         pred = theta[0] * D[0] + theta[1] * D[1]
     return m, theta, pred
